@@ -10,6 +10,10 @@ from .._compat import number_types, string_types
 NUMERIC_TEXT = re.compile(r'\s*[+-]?(\d+(\.\d*)?|\.\d+)([eE][+-]?\d+)?\s*\Z')
 
 
+# the digits of 2 ** (2 ** 17), the largest whole number that is computed with (formulas.utils.MAX_WHOLE_BITS)
+MAX_WHOLE_DIGITS = 39457
+
+
 def whole_number(text):
     """ int(text) for any number of digits (Python refuses more than 4300 at once) """
     sign = -1 if text.startswith('-') else 1
@@ -38,6 +42,10 @@ def to_number(number):
     if isinstance(number, string_types) and NUMERIC_TEXT.match(number):
         text = number.strip()
         if text.lstrip('+-').isdigit():
+            if len(text) > MAX_WHOLE_DIGITS + 1:
+                # like "1e999": it spells no number a sheet can hold, it stays text (and reading
+                # ten million digits takes minutes: a 188-character formula of nested SUBSTITUTEs writes them)
+                return number
             return whole_number(text)
         try:
             # (stripped: float() does not skip the separator control characters \x1c-\x1f, which
